@@ -302,12 +302,22 @@ def join(a, b):
     if isinstance(a, TTuple) and isinstance(b, TTuple) and len(a.elems) == len(b.elems):
         js = [join(x, y) for x, y in zip(a.elems, b.elems)]
         return TTuple(js) if all(j is not None for j in js) else None
+    # scalar-or-sequence ⊔ one of its two components
+    if isinstance(a, TUnion) and (resolve(a.a) == b or resolve(a.b) == b):
+        return a
+    if isinstance(b, TUnion) and (resolve(b.a) == a or resolve(b.b) == a):
+        return b
     return None
 
 
 def coerce(code, frm, to):
     """Lean code of `code : frm` seen as `to` (frm must join into to)"""
     frm, to = resolve(frm), resolve(to)
+    if isinstance(to, TUnion) and not isinstance(frm, (TUnion, TVar)):
+        if resolve(to.a) == frm:
+            return "(Sum.inl {})".format(code)
+        if resolve(to.b) == frm:
+            return "(Sum.inr {})".format(code)
     if frm == to or isinstance(frm, TVar) or isinstance(to, TVar):
         unify(frm, to)
         return code
